@@ -270,7 +270,8 @@ def gen_case(rng, dens=None):
     if r < 0.15 and strsites:
         inj = 'undef'
         s = rng.choice(strsites)
-        put(s[2], s[3], get(s[2], s[3]) + ' %(undef)s')
+        # (%(replica)s is the one reference a PRIMITIVE resolution leaves in place; for the real one it is undefined)
+        put(s[2], s[3], get(s[2], s[3]) + (' %(replica)s' if rng.random() < 0.4 else ' %(undef)s'))
     elif r < 0.19:
         inj = 'cycle'
         i = rng.randrange(0, 5)
